@@ -8,6 +8,7 @@ pub mod engine_vec;
 pub mod runners_adp;
 pub mod runners_misc;
 pub mod runners_obs;
+pub mod runners_pairs;
 pub mod runners_thr;
 pub mod runners_unwind;
 pub mod runners_vec;
